@@ -604,6 +604,54 @@ pub fn run(ctx: &Ctx) -> Report {
         st = st.merge(st7);
     }
 
+    // (8) an unsigned header is without influence unless a requirement names it: under declared prefixes, always- and
+    //     conditionally-required names, unsigned bystanders named like every leading fragment of each declared name
+    //     (and the name cut by its last character, with another last character, in upper case) leave a valid request valid
+    {
+        let declared: [(&str, u8); 4] = [("X-Amz-", 2), ("x-p-", 2), ("X-Must", 0), ("X-Opt", 1)];
+        let mut cases8: Vec<(String, String)> = Vec::new(); // (declared, bystander name)
+        for (d, _) in declared {
+            let l = d.to_ascii_lowercase();
+            for k in 1..l.len() {
+                cases8.push((d.to_string(), l[..k].to_string()));
+            }
+            cases8.push((d.to_string(), format!("{}x", &l[..l.len() - 1])));
+            cases8.push((d.to_string(), format!("y{}", l)));
+        }
+        let n8 = cases8.len() as u64 * 2;
+        let base8 = n_bases * 1000 + 400_000;
+        let st8 = par_sweep(n8, |i, st| {
+            let (d, name) = &cases8[(i / 2) as usize];
+            let carrier = if i % 2 == 0 { Carrier::Header } else { Carrier::Query };
+            if http::header::HeaderName::from_bytes(name.as_bytes()).is_err() {
+                return;
+            }
+            let mut plan = e2e::base_plan(carrier);
+            // the always-required header is sent and signed; the others are not sent
+            plan.headers.push(("X-Must".into(), b"m".to_vec()));
+            plan.signed.push("x-must".into());
+            if carrier == Carrier::Header {
+                // x-amz-date falls under the X-Amz- prefix and is signed (base plan)
+            }
+            plan.headers.push((name.clone(), b"bystander".to_vec()));
+            let mut c8 = cfg.clone();
+            c8.reqs = crate::sut::ReqSpec { always: vec!["X-Must".into()], if_in_request: vec!["X-Opt".into()], prefixes: vec!["X-Amz-".into(), "x-p-".into()], how: Some(crate::sut::ReqBuild::VecNew) };
+            let c = Case { wire: WireReq::from_wire(&build(&plan).wire), cfg: c8, prov: ProvSpec::standard() };
+            let before = st.violations.len();
+            let j = e2e::judge_into(base8 + i, &c, st);
+            if st.violations.len() > before {
+                if let Some(v) = st.violations.last_mut() {
+                    v.what = format!("unsigned-bystander-named-like-a-fragment-of-a-declared-name(declared {:?}, bystander {:?}):{}", d, name, v.what);
+                }
+            }
+            if !crate::env::ambient_b() && !j.unspecified && !j.reference.accepted() && !matches!(j.sut, crate::sut::SutResult::Unbuildable(_)) {
+                machinery_error(&format!("C11 (8): reference refuses ({:?}) declared {:?} bystander {:?}", j.reference.error, d, name));
+            }
+            st.nontrivial(&(d, name, carrier, "fragment-bystanders"));
+        });
+        st = st.merge(st8);
+    }
+
     // (3b) the same differential on refused bases
     let refused = refused_bases();
     let n_ref = refused.len() as u64;
@@ -640,7 +688,7 @@ pub fn run(ctx: &Ctx) -> Report {
     Report {
         stats: st,
         rule: format!(
-            "{} base requests: x-a with every list of 0..2 values over 14 values (spaces outside/inside, empty, comma, 0xE9, quoted, inner/outer/double tabs, values beginning/ending in bytes 0x85 / 0xA0) x x-b (none, one, two values) x content-type (absent/present) x every signed subset of {{x-a, x-b, content-type, x-amz-date}} x 3 arrival orders x 3 name-case styles, header carrier and (1 in 5) query carrier; (1) accepted, canonical request bytes equal to the reference's; (2) on every {} base, every single edit of a signed header (insertion of 4 bytes at every position, deletion and 3 substitutions at every position, value added/removed, two values swapped, value moved to another signed name) with the old signature: Ok iff the reference header block is unchanged (every third refused edit also applied to the Parts the validator returned for the base request); (3) every insertion position of an unsigned header, removal/modification/extra value of every unsigned one, every rotation of the header groups: identical outcome; the same insertions on {} refused bases; (4) a thrice-repeated signed header among 12..100 header lines in 4 arrangements: accepted, refused once two signed values are swapped, unaffected by removing unsigned lines (each 8 times); (5) 8 Host spellings (ports 443/80/8443, upper case, trailing dot, IPv6, doubled port) signed literally on both carriers, each with 36 unsigned headers (well-known hop-by-hop / proxy / content headers and near-miss names of the headers the library consults) added, and every signature presented with every other Host value; (6) a form POST signing 14 entity / framing / payload-digest / list-valued headers (Cookie, Accept and Cache-Control with two values each) (Content-Length, Content-Type, Content-MD5, X-Amz-Content-Sha256, Transfer-Encoding, Expect, Range, ...) under {{default, S3, fold, S3+fold}} on both carriers: accepted as signed, and judged against the reference for each of 8 replacement values, an added second value and the removal of every one of them; (7) two or three signed headers whose names share a prefix and part ways at every ordered pair over 21 of the characters a header name may contain (all 15 punctuation marks, digits, letters) in 3 shapes (same length, one a prefix of the other, first character), names sent in lower or upper case, both carriers: correctly signed over the byte order of the lower-case names, accepted. states = distinct reference canonical requests",
+            "{} base requests: x-a with every list of 0..2 values over 14 values (spaces outside/inside, empty, comma, 0xE9, quoted, inner/outer/double tabs, values beginning/ending in bytes 0x85 / 0xA0) x x-b (none, one, two values) x content-type (absent/present) x every signed subset of {{x-a, x-b, content-type, x-amz-date}} x 3 arrival orders x 3 name-case styles, header carrier and (1 in 5) query carrier; (1) accepted, canonical request bytes equal to the reference's; (2) on every {} base, every single edit of a signed header (insertion of 4 bytes at every position, deletion and 3 substitutions at every position, value added/removed, two values swapped, value moved to another signed name) with the old signature: Ok iff the reference header block is unchanged (every third refused edit also applied to the Parts the validator returned for the base request); (3) every insertion position of an unsigned header, removal/modification/extra value of every unsigned one, every rotation of the header groups: identical outcome; the same insertions on {} refused bases; (4) a thrice-repeated signed header among 12..100 header lines in 4 arrangements: accepted, refused once two signed values are swapped, unaffected by removing unsigned lines (each 8 times); (5) 8 Host spellings (ports 443/80/8443, upper case, trailing dot, IPv6, doubled port) signed literally on both carriers, each with 36 unsigned headers (well-known hop-by-hop / proxy / content headers and near-miss names of the headers the library consults) added, and every signature presented with every other Host value; (6) a form POST signing 14 entity / framing / payload-digest / list-valued headers (Cookie, Accept and Cache-Control with two values each) (Content-Length, Content-Type, Content-MD5, X-Amz-Content-Sha256, Transfer-Encoding, Expect, Range, ...) under {{default, S3, fold, S3+fold}} on both carriers: accepted as signed, and judged against the reference for each of 8 replacement values, an added second value and the removal of every one of them; (7) two or three signed headers whose names share a prefix and part ways at every ordered pair over 21 of the characters a header name may contain (all 15 punctuation marks, digits, letters) in 3 shapes (same length, one a prefix of the other, first character), names sent in lower or upper case, both carriers: correctly signed over the byte order of the lower-case names, accepted; (8) under two declared prefixes, an always- and a conditionally-required name: unsigned bystanders named like every leading fragment of each declared name (and near-misses of it) leave a valid request valid. states = distinct reference canonical requests",
             n_bases, if edit_stride == 1 { "" } else { "fourth" }, n_ref
         ),
         bounds: json!({"bases": n_bases, "edit_stride": edit_stride}),
